@@ -4,9 +4,9 @@ pub open spec fn dfin(j: int, avg: int, rem: int) -> int { avg + (if j < rem { 1
 pub open spec fn all_some_ok(cs: Seq<ChunkStore>) -> bool {
     forall|i: int, p: int| 0 <= i < cs.len() && 0 <= p < 2 ==> ((#[trigger] cs[i].stable_slots[p]) matches Some(sr) && rl_ok(sr.range_list))
 }
-// every destination master still has room: it holds fewer slots than its final share
+// no kept master holds more than its final share (a balanced cluster: every master holds the old average or one more, and the new shares are not smaller); it may hold exactly its share
 pub open spec fn dst_have_room(cs: Seq<ChunkStore>, n: int, avg: int, rem: int) -> bool {
-    forall|j: int| 0 <= j < 2 * n ==> slots_num((#[trigger] half_of(cs, j))->Some_0.range_list.0@) < dfin(j, avg, rem)
+    forall|j: int| 0 <= j < 2 * n ==> slots_num((#[trigger] half_of(cs, j))->Some_0.range_list.0@) <= dfin(j, avg, rem)
 }
 pub open spec fn meta_ok_down(m: MigrationMetaStore, n: int, len: int, epoch: u64) -> bool {
     m.epoch == epoch && n <= m.src_chunk_index < len && m.src_chunk_part < 2 && 0 <= m.dst_chunk_index < n && m.dst_chunk_part < 2
@@ -48,7 +48,7 @@ pub proof fn lemma_wf_tail(v: Seq<Range>)
     assert forall|i: int| 0 <= i < t.len() - 1 implies (#[trigger] t[i]).1 + 1 < t[i + 1].0 by { assert(t[i] == v[i + 1]); assert(t[i + 1] == v[i + 2]); }
 }
 
-/// the kept master the cursor points at still has room after what was already handed to it in this round
+/// the kept master the cursor points at is not over its share, and is below it once something was handed to it in this round (a full one is left at once)
 pub open spec fn room_at(idx: usize, cur: usize, ex: Seq<usize>, avg: int, rem: int) -> bool {
-    idx < ex.len() ==> cur + ex[idx as int] < dfin(idx as int, avg, rem)
+    idx < ex.len() ==> cur + ex[idx as int] <= dfin(idx as int, avg, rem) && (cur > 0 ==> cur + ex[idx as int] < dfin(idx as int, avg, rem))
 }
